@@ -5,13 +5,15 @@
   2. `userCode_wellformed`, `userCode_length`: NewUserCode as a function of the drawn indices has the configured format, for
      every alphabet, amount, dash interval and index list in range.
   3. `deviceCode_wellformed`: NewDeviceCode of n bytes is an unpadded base64url string of ⌈4n/3⌉ characters.
-  4. `c16_uris`: the verification URIs of the model's response, as a user agent reads them.
+  4. `formDecode_escape`, `c16_uris`: the form decoder inverts url.QueryEscape on every byte string; the complete verification
+     URI of the model's response carries the user code to a user agent, for every URI and every user code (any alphabet).
   5. `c16_state_machine`: for ALL histories of device_authorization / approve / deny / expire / poll on both routers the
      reference monitor accepts every response of the model (regenerated handlers + stateful shell).
 -/
 import OidcModel.Spec.C16
 import OidcModel.Model.DeviceFlow
 import OidcModel.Proofs.Base64
+import OidcModel.Proofs.Query
 
 namespace C16
 open Go Gen Hand
@@ -268,9 +270,6 @@ example (bytes : List UInt8) (h : bytes.length = 16) : (B64.encode bytes).length
 
 -- ================================================================ 4. verification URIs
 
-/-- characters that do not survive an unescaped trip through a query string -/
-def Unreserved (s : List Char) : Prop := ∀ c ∈ s, c ≠ '%' ∧ c ≠ '+' ∧ c ≠ '&' ∧ c ≠ '#'
-
 theorem stripPrefix_append (a b : List Char) : stripPrefix a (a ++ b) = some b := by
   induction a with
   | nil => cases b <;> rfl
@@ -284,53 +283,218 @@ theorem splitFirst_absent (sep : Char) (s : List Char) (h : ∀ c ∈ s, c ≠ s
     have := ih (fun c' hc' => h c' (by simp [hc']))
     simp [splitFirst, hc, this]
 
-theorem formDecode_plain (s : List Char) (h : ∀ c ∈ s, c ≠ '%' ∧ c ≠ '+') : formDecode s = some (utf8 s) := by
-  induction s with
-  | nil => rfl
+theorem splitFirst_append (sep : Char) (a t : List Char) (h : ∀ c ∈ a, c ≠ sep) : splitFirst sep (a ++ sep :: t) = (a, some t) := by
+  induction a with
+  | nil => simp [splitFirst]
   | cons c cs ih =>
-    have h1 : (c == '%') = false := by simpa using (h c (by simp)).1
-    have h2 : (c == '+') = false := by simpa using (h c (by simp)).2
+    have hc : (c == sep) = false := by simpa using h c (by simp)
     have := ih (fun c' hc' => h c' (by simp [hc']))
-    unfold formDecode
-    simp [h1, h2, this, utf8]
+    simp [splitFirst, hc, this]
 
-/-- the complete verification URI the model builds (`uri?user_code=<code>`) carries the user code to a user agent, for every
-    URI and every user code without `% + & #` -/
-theorem c16_uris (uri uc : List Char) (h : Unreserved uc) :
-    uriCompleteOK uri (uri ++ "?user_code=".toList ++ uc) uc = true := by
-  have hlit : "?user_code=".toList = '?' :: "user_code=".toList := by rfl
-  have hkey : "user_code=".toList = "user_code".toList ++ ['='] := by rfl
-  unfold uriCompleteOK
-  rw [List.append_assoc, stripPrefix_append, hlit]
-  simp only [List.cons_append]
-  have hq : ∀ sep : Char, sep = '#' ∨ sep = '&' → ∀ c ∈ "user_code=".toList ++ uc, c ≠ sep := by
-    intro sep hsep c hc
-    rw [List.mem_append] at hc
-    rcases hc with hc | hc
-    · have : ∀ c ∈ "user_code=".toList, c ≠ '#' ∧ c ≠ '&' := by decide
-      rcases hsep with rfl | rfl
-      · exact (this c hc).1
-      · exact (this c hc).2
-    · rcases hsep with rfl | rfl
-      · exact (h c hc).2.2.2
-      · exact (h c hc).2.2.1
-  rw [splitFirst_absent '#' _ (hq '#' (Or.inl rfl))]
-  simp only
-  rw [splitFirst_absent '&' _ (hq '&' (Or.inr rfl))]
-  simp only
-  have hsplit : splitFirst '=' ("user_code=".toList ++ uc) = ("user_code".toList, some uc) := by
-    rw [hkey]
-    have : "user_code".toList = ['u', 's', 'e', 'r', '_', 'c', 'o', 'd', 'e'] := by rfl
-    rw [this]
-    simp [splitFirst]
-  rw [hsplit]
-  simp only
-  rw [formDecode_plain "user_code".toList (by decide), formDecode_plain uc (fun c hc => ⟨(h c hc).1, (h c hc).2.1⟩)]
+-- ---------------------------------------------------------------- text as bytes
+
+/-- `ByteArray.toList` reads the bytes back in order -/
+theorem byteArray_loop (bs : ByteArray) : ∀ (n i : Nat) (r : List UInt8), bs.size - i = n →
+    ByteArray.toList.loop bs i r = r.reverse ++ bs.data.toList.drop i := by
+  have hsz : bs.size = bs.data.toList.length := by cases bs; simp [ByteArray.size]
+  intro n
+  induction n with
+  | zero =>
+    intro i r h
+    rw [ByteArray.toList.loop.eq_def]
+    have : ¬ i < bs.size := by omega
+    have hd : bs.data.toList.drop i = [] := List.drop_eq_nil_of_le (by omega)
+    simp [this, hd]
+  | succ n ih =>
+    intro i r h
+    rw [ByteArray.toList.loop.eq_def]
+    have hlt : i < bs.size := by omega
+    have hlt' : i < bs.data.toList.length := by omega
+    simp only [hlt, ↓reduceIte]
+    rw [ih (i + 1) _ (by omega)]
+    have hg : bs.get! i = bs.data.toList[i] := by
+      cases bs with
+      | mk d =>
+        have : i < d.size := by simpa using hlt'
+        simp [ByteArray.get!, this]
+    rw [List.drop_eq_getElem_cons hlt', hg]
+    simp
+
+theorem byteArray_toList (l : List UInt8) : l.toByteArray.toList = l := by
+  unfold ByteArray.toList
+  rw [byteArray_loop _ _ 0 [] rfl]
   simp
 
-/-- without that restriction the statement is false: built by string concatenation, a user code containing `&` is cut off -/
-theorem c16_uris_reserved_witness :
-    uriCompleteOK "https://op.example/device".toList "https://op.example/device?user_code=A&B".toList "A&B".toList = false := by decide
+/-- the monitor's bytes of a character are its UTF-8 encoding -/
+theorem charBytes_eq (c : Char) : charBytes c = String.utf8EncodeChar c := by
+  simp [charBytes, String.toUTF8, List.utf8Encode, byteArray_toList]
+
+/-- the bytes of a Go string, as the model takes them, are what the monitor calls the UTF-8 of the text -/
+theorem toUTF8_ofList (s : List Char) : (String.ofList s).toUTF8.toList = utf8 s := by
+  have : utf8 s = s.flatMap String.utf8EncodeChar := by
+    unfold utf8; congr 1; funext c; exact charBytes_eq c
+  rw [this]
+  simp [String.toUTF8, String.toByteArray_ofList, List.utf8Encode, byteArray_toList]
+
+-- ---------------------------------------------------------------- url.QueryEscape, read by the form decoder
+
+/-- every byte `url.QueryEscape` emits is unreserved (letters, digits incl. the hex digits, `- _ . ~`), `+` or `%` -/
+theorem escape_bytes (bs : List UInt8) : ∀ x ∈ Query.escape bs, Query.unreserved x = true ∨ x = 43 ∨ x = 37 := by
+  have hhex : ∀ m : Fin 16, Query.unreserved (Query.hexDigit m.val) = true := by decide
+  induction bs with
+  | nil => simp [Query.escape]
+  | cons b r ih =>
+    have hd : b.toNat / 16 < 16 := by have := b.toNat_lt; omega
+    have hm : b.toNat % 16 < 16 := Nat.mod_lt _ (by decide)
+    simp only [Query.escape]
+    split
+    · rename_i hu
+      intro x hx
+      simp only [List.mem_cons] at hx
+      rcases hx with rfl | hx
+      · exact Or.inl hu
+      · exact ih x hx
+    · split
+      · intro x hx
+        simp only [List.mem_cons] at hx
+        rcases hx with rfl | hx
+        · exact Or.inr (Or.inl rfl)
+        · exact ih x hx
+      · intro x hx
+        simp only [List.mem_cons] at hx
+        rcases hx with rfl | rfl | rfl | hx
+        · exact Or.inr (Or.inr rfl)
+        · exact Or.inl (hhex ⟨_, hd⟩)
+        · exact Or.inl (hhex ⟨_, hm⟩)
+        · exact ih x hx
+
+/-- an unreserved byte, as a character: one byte of UTF-8, and none of the characters with a meaning in a query string -/
+def plainChar (b : UInt8) : Bool :=
+  String.utf8EncodeChar (devAsciiChar b) == [b] &&
+    devAsciiChar b != '%' && devAsciiChar b != '+' && devAsciiChar b != '#' && devAsciiChar b != '&' && devAsciiChar b != '='
+
+set_option maxRecDepth 100000 in
+theorem unreserved_plainChar_fin : ∀ n : Fin 256, (fun b => !Query.unreserved b || plainChar b) (UInt8.ofNat n.val) = true := by decide
+
+theorem unreserved_plainChar {b : UInt8} (h : Query.unreserved b = true) : plainChar b = true := by
+  have := unreserved_plainChar_fin ⟨b.toNat, b.toNat_lt⟩
+  simpa [h] using this
+
+theorem hexVal_hexDigit (n : Nat) (hn : n < 16) : hexVal (devAsciiChar (Query.hexDigit n)) = some n := by
+  have h : ∀ m : Fin 16, hexVal (devAsciiChar (Query.hexDigit m.val)) = some m.val := by decide
+  exact h ⟨n, hn⟩
+
+theorem ofNat_nibbles (b : UInt8) : 16 * UInt8.ofNat (b.toNat / 16) + UInt8.ofNat (b.toNat % 16) = b := by
+  rw [UInt8.mul_comm]; exact Query.ofNat_nibbles b
+
+theorem formDecode_plainChar {b : UInt8} (r : List Char) (h : plainChar b = true) :
+    formDecode (devAsciiChar b :: r) = (formDecode r).map (b :: ·) := by
+  simp only [plainChar, Bool.and_eq_true, beq_iff_eq, bne_iff_ne, ne_eq] at h
+  obtain ⟨⟨⟨⟨⟨hb, h1⟩, h2⟩, _⟩, _⟩, _⟩ := h
+  rw [formDecode.eq_def]
+  simp [h1, h2, charBytes_eq, hb]
+
+/-- **the form decoder inverts url.QueryEscape** on every byte string (the escaped text taken as characters) -/
+theorem formDecode_escape (bs : List UInt8) : formDecode ((Query.escape bs).map devAsciiChar) = some bs := by
+  induction bs with
+  | nil => rfl
+  | cons b r ih =>
+    simp only [Query.escape]
+    split
+    · rename_i hu
+      rw [List.map_cons, formDecode_plainChar _ (unreserved_plainChar hu), ih]; rfl
+    · split
+      · rename_i h32
+        have : b = 32 := by simpa using h32
+        subst this
+        have hplus : devAsciiChar 43 = '+' := by decide
+        rw [List.map_cons, hplus, formDecode.eq_def]
+        simp [ih]
+      · have hd : b.toNat / 16 < 16 := by have := b.toNat_lt; omega
+        have hm : b.toNat % 16 < 16 := Nat.mod_lt _ (by decide)
+        have hpct : devAsciiChar 37 = '%' := by decide
+        simp only [List.map_cons]
+        rw [hpct, formDecode.eq_def]
+        simp [hexVal_hexDigit _ hd, hexVal_hexDigit _ hm, ih, ofNat_nibbles]
+
+/-- escaped text contains none of `# & =` -/
+theorem escape_nodelim (bs : List UInt8) : ∀ c ∈ (Query.escape bs).map devAsciiChar, c ≠ '#' ∧ c ≠ '&' ∧ c ≠ '=' := by
+  intro c hc
+  obtain ⟨x, hx, rfl⟩ := List.mem_map.1 hc
+  rcases escape_bytes bs x hx with hu | rfl | rfl
+  · have := unreserved_plainChar hu
+    simp only [plainChar, Bool.and_eq_true, beq_iff_eq, bne_iff_ne, ne_eq] at this
+    exact ⟨this.1.1.2, this.1.2, this.2⟩
+  · decide
+  · decide
+
+theorem devQueryEscape_toList (s : List Char) :
+    (devQueryEscape (String.ofList s)).toList = (Query.escape (utf8 s)).map devAsciiChar := by
+  rw [devQueryEscape, String.toList_ofList, toUTF8_ofList]
+
+/-- the key `user_code` consists of unreserved characters: url.Values.Encode leaves it as it is -/
+theorem devQueryEscape_key : (devQueryEscape "user_code").toList = "user_code".toList := by
+  have hk : "user_code" = String.ofList ['u', 's', 'e', 'r', '_', 'c', 'o', 'd', 'e'] := by rfl
+  have hl : "user_code".toList = ['u', 's', 'e', 'r', '_', 'c', 'o', 'd', 'e'] := by rfl
+  rw [hl, hk, devQueryEscape_toList]
+  have : utf8 ['u', 's', 'e', 'r', '_', 'c', 'o', 'd', 'e'] = [117, 115, 101, 114, 95, 99, 111, 100, 101] := by
+    simp only [utf8, List.flatMap_cons, List.flatMap_nil, charBytes_eq]; decide
+  rw [this]; decide
+
+/-- what the model puts behind the `?` of the complete verification URI -/
+theorem devEncodeQuery_toList (uc : List Char) :
+    (devEncodeQuery "user_code" (String.ofList uc)).toList =
+      "user_code".toList ++ '=' :: (Query.escape (utf8 uc)).map devAsciiChar := by
+  have heq : "=".toList = ['='] := by rfl
+  simp only [devEncodeQuery, String.toList_append, devQueryEscape_key, devQueryEscape_toList, heq]
+  simp
+
+/-- **C16, verification URIs.** The complete verification URI the model builds (`uri?` + `url.Values{"user_code": {code}}.Encode()`)
+    carries the user code to a user agent - one parameter `user_code` whose form-decoded value is the UTF-8 of the code - for
+    EVERY URI and EVERY user code, whatever its alphabet (`% + & # =`, blanks, non-ASCII text included) -/
+theorem c16_uris (uri uc : List Char) :
+    uriCompleteOK uri (uri ++ '?' :: (devEncodeQuery "user_code" (String.ofList uc)).toList) uc = true := by
+  have hkeyc : ∀ c ∈ "user_code".toList, c ≠ '#' ∧ c ≠ '&' ∧ c ≠ '=' ∧ c ≠ '%' ∧ c ≠ '+' := by decide
+  have hesc := escape_nodelim (utf8 uc)
+  have hq : ∀ c ∈ "user_code".toList ++ '=' :: (Query.escape (utf8 uc)).map devAsciiChar, c ≠ '#' ∧ c ≠ '&' := by
+    intro c hc
+    simp only [List.mem_append, List.mem_cons] at hc
+    rcases hc with hc | rfl | hc
+    · exact ⟨(hkeyc c hc).1, (hkeyc c hc).2.1⟩
+    · decide
+    · exact ⟨(hesc c hc).1, (hesc c hc).2.1⟩
+  unfold uriCompleteOK
+  rw [stripPrefix_append, devEncodeQuery_toList]
+  simp only
+  rw [splitFirst_absent '#' _ (fun c hc => (hq c hc).1)]
+  simp only
+  rw [splitFirst_absent '&' _ (fun c hc => (hq c hc).2)]
+  simp only
+  rw [splitFirst_append '=' _ _ (fun c hc => (hkeyc c hc).2.2.1)]
+  simp only
+  have hkey : formDecode "user_code".toList = some (utf8 "user_code".toList) := by
+    have := formDecode_escape (utf8 "user_code".toList)
+    rw [← devQueryEscape_toList, String.ofList_toList, devQueryEscape_key] at this
+    exact this
+  rw [hkey, formDecode_escape]
+  simp
+
+/-- the same for the text the provider sends -/
+theorem c16_uris_string (uri uc : String) :
+    uriCompleteOK uri.toList (uri ++ "?" ++ devEncodeQuery "user_code" uc).toList uc.toList = true := by
+  have hq : "?".toList = ['?'] := by rfl
+  have := c16_uris uri.toList uc.toList
+  rw [String.ofList_toList] at this
+  simpa [String.toList_append, hq] using this
+
+/-- non-vacuity: reserved characters are escaped, and the unescaped form (what string concatenation would build) is refused -/
+example : (devEncodeQuery "user_code" (String.ofList "A&B+C%D#E=F G".toList)).toList = "user_code=A%26B%2BC%25D%23E%3DF+G".toList := by
+  rw [devEncodeQuery_toList]
+  have h1 : "A&B+C%D#E=F G".toList = ['A', '&', 'B', '+', 'C', '%', 'D', '#', 'E', '=', 'F', ' ', 'G'] := by rfl
+  have : utf8 "A&B+C%D#E=F G".toList = [65, 38, 66, 43, 67, 37, 68, 35, 69, 61, 70, 32, 71] := by
+    rw [h1]; simp only [utf8, List.flatMap_cons, List.flatMap_nil, charBytes_eq]; decide
+  rw [this]; decide
+example : uriCompleteOK "https://op.example/device".toList "https://op.example/device?user_code=A&B".toList "A&B".toList = false := by decide
 
 -- ================================================================ 5. histories
 
@@ -391,8 +555,6 @@ def trace (s : St) : List Op → List Event
 structure GoodCfg (p : DevProvider) : Prop where
   /-- lifetime is a whole number of seconds (expires_in tells the client the exact lifetime) -/
   lifetime : p.cfg.Lifetime % Go.second = 0
-  /-- alphabet without `% + & #` (see `c16_uris_reserved_witness`) -/
-  alphabet : Unreserved p.cfg.UserCode.CharSet
 
 /-- what crypto/rand guarantees for one device_authorization request: 16 bytes, one index per character, below the alphabet size;
     and the device code does not collide with a stored one (entropy: the part of the property that is NOT proved) -/
@@ -855,7 +1017,7 @@ theorem create_ok {now : Int} {req : DevFormData} {cid : String} {o : DevProvide
       (o.devices.any (·.userCode == String.ofList uc)) = false ∧
       resp = { DeviceCode := NewDeviceCode o.rnd.bytes, UserCode := String.ofList uc,
                VerificationURI := o.p.issuer ++ o.cfg.UserFormPath,
-               VerificationURIComplete := o.p.issuer ++ o.cfg.UserFormPath ++ "?user_code=" ++ String.ofList uc,
+               VerificationURIComplete := o.p.issuer ++ o.cfg.UserFormPath ++ "?" ++ devEncodeQuery "user_code" (String.ofList uc),
                ExpiresIn := o.cfg.Lifetime / Go.second, Interval := o.cfg.PollInterval / Go.second,
                clientID := cid, scopes := req.Scopes, expires := now + o.cfg.Lifetime } := by
   unfold Hand.createDeviceAuthorization at h
@@ -995,37 +1157,6 @@ theorem deviceAuthorization_cases {now : Int} {rt : Flow.Router} {p : DevProvide
           split at h <;> simp_all
       · simp [hvg]
 
-theorem userCodeFrom_chars (cs : List Char) (d : Nat) :
-    ∀ (ks : List Nat) (i : Nat) (s : List Char), userCodeFrom cs d i ks = some s → ∀ c ∈ s, c = '-' ∨ c ∈ cs := by
-  intro ks
-  induction ks with
-  | nil => intro i s h; simp [userCodeFrom] at h; subst h; simp
-  | cons k ks ih =>
-    intro i s h
-    simp only [userCodeFrom] at h
-    split at h
-    · rename_i c rest hc hr
-      simp only [Option.some.injEq] at h
-      subst h
-      intro x hx
-      simp only [List.mem_append, List.mem_cons] at hx
-      rcases hx with hx | rfl | hx
-      · split at hx
-        · simp at hx; exact Or.inl hx
-        · simp at hx
-      · exact Or.inr (List.mem_of_getElem? hc)
-      · exact ih (i + 1) rest hr x hx
-    · simp at h
-
-theorem newUserCode_unreserved {cs : List Char} {amount dash : Nat} {idx : List Nat} {uc : List Char}
-    (hcs : Unreserved cs) (h : NewUserCode cs amount dash idx = some uc) : Unreserved uc := by
-  unfold NewUserCode at h
-  split at h; · simp at h
-  intro c hc
-  rcases userCodeFrom_chars cs dash idx 0 uc h c hc with rfl | hm
-  · decide
-  · exact hcs c hm
-
 /-- the response of the model to an accepted device_authorization request satisfies the monitor: formats, URIs, lifetime -/
 theorem auth_response_ok {now : Int} {s : St} {req : DevFormData} {cid : String} {rnd : DevRandom} {resp : DeviceAuthorizationResponse}
     (hcfg : GoodCfg s.prov)
@@ -1043,7 +1174,6 @@ theorem auth_response_ok {now : Int} {s : St} {req : DevFormData} {cid : String}
   obtain ⟨uc', huc', hok⟩ := userCode_wellformed s.prov.cfg.UserCode.CharSet s.prov.cfg.UserCode.CharAmount
     s.prov.cfg.UserCode.DashInterval rnd.indices hlen hr
   rw [huc] at huc'; cases huc'
-  have hun := newUserCode_unreserved hcfg.alphabet huc
   subst hresp
   unfold judgeAuth
   simp only [authRespOf, abs, absCfg]
@@ -1059,10 +1189,9 @@ theorem auth_response_ok {now : Int} {s : St} {req : DevFormData} {cid : String}
   have h3 : userCodeOK s.prov.cfg.UserCode.CharSet s.prov.cfg.UserCode.CharAmount s.prov.cfg.UserCode.DashInterval
       (String.ofList uc).toList = true := by simpa using hok
   have h4 : uriCompleteOK (s.prov.p.issuer ++ s.prov.cfg.UserFormPath).toList
-      (s.prov.p.issuer ++ s.prov.cfg.UserFormPath ++ "?user_code=" ++ String.ofList uc).toList (String.ofList uc).toList = true := by
-    simp only [String.toList_append, String.toList_ofList]
-    have := c16_uris (s.prov.p.issuer.toList ++ s.prov.cfg.UserFormPath.toList) uc hun
-    simpa [List.append_assoc] using this
+      (s.prov.p.issuer ++ s.prov.cfg.UserFormPath ++ "?" ++ devEncodeQuery "user_code" (String.ofList uc)).toList
+      (String.ofList uc).toList = true :=
+    c16_uris_string (s.prov.p.issuer ++ s.prov.cfg.UserFormPath) (String.ofList uc)
   have hsec : s.prov.cfg.Lifetime / Go.second * Go.second = s.prov.cfg.Lifetime :=
     Int.ediv_mul_cancel (Int.dvd_of_emod_eq_zero hcfg.lifetime)
   have h5 : (now + s.prov.cfg.Lifetime - (now + s.prov.cfg.Lifetime / Go.second * Go.second)).natAbs = 0 := by
@@ -1087,7 +1216,7 @@ theorem step_frame (s : St) (op : Op) :
 
 theorem goodCfg_step {s : St} (op : Op) (h : GoodCfg s.prov) : GoodCfg (step s op).1.prov := by
   obtain ⟨_, _, hc, _, hu⟩ := step_frame s op
-  exact ⟨by rw [hc]; exact h.lifetime, by rw [hc]; exact h.alphabet⟩
+  exact ⟨by rw [hc]; exact h.lifetime⟩
 
 theorem abs_mapDevice (s : St) (code : String) (f : DeviceAuthorizationState → DeviceAuthorizationState) (g : Dev → Dev)
     (hfg : ∀ e : DeviceEntry, absDev { e with state := f e.state } = g (absDev e)) :
@@ -1171,8 +1300,9 @@ theorem judge_step {s : St} (op : Op) (hcfg : GoodCfg s.prov) (hop : GoodOp s op
     | ok i => simp only [eventOf, judge]; exact poll_tokens_sound hdt
 
 /-- **C16, history level.** For every history of device_authorization / approve / deny / expire / poll operations by any clients
-    with any presentations, on both routers, for every user-code configuration in the domain: the reference monitor accepts every
-    response of the model. (Hypotheses: `GoodCfg` - whole-second lifetime, alphabet without `% + & #`; `Good` - what crypto/rand delivers, incl. non-colliding device codes.) -/
+    with any presentations, on both routers, for EVERY user-code configuration (any alphabet - reserved URL characters and non-ASCII
+    text included -, amount, dash interval): the reference monitor accepts every response of the model.
+    (Hypotheses: `GoodCfg` - whole-second lifetime; `Good` - what crypto/rand delivers, incl. non-colliding device codes.) -/
 theorem c16_state_machine (ops : List Op) : ∀ (s : St), GoodCfg s.prov → Good s ops →
     ∀ v ∈ judgeAll (abs s) (trace s ops), v = none := by
   induction ops with
@@ -1209,9 +1339,17 @@ def demoOps : List Op :=
 
 /-- the demo history is in the domain of `c16_state_machine` (both routers) -/
 example (rt : Flow.Router) : GoodCfg (demoState rt).prov := by
-  cases rt <;> exact ⟨by decide, by unfold Unreserved; decide⟩
+  cases rt <;> exact ⟨by decide⟩
 example (rt : Flow.Router) : Good (demoState rt) demoOps := by
   cases rt <;> exact ⟨⟨by decide, by decide, by decide, by decide⟩, trivial, trivial, trivial, trivial, trivial, trivial, trivial⟩
+
+/-- an alphabet of reserved URL characters is in the domain as well: the response to the device_authorization request is accepted -/
+def demoReserved (rt : Flow.Router) : St :=
+  { demoState rt with prov := { (demoState rt).prov with cfg := { UserCode := { CharSet := "&%+# =".toList, CharAmount := 3, DashInterval := 0 } } } }
+def demoReservedOps : List Op := [.auth 1000 (tvReq "") { bytes := List.replicate 16 0, indices := [0, 1, 3] }]
+example (rt : Flow.Router) : ∀ v ∈ judgeAll (abs (demoReserved rt)) (trace (demoReserved rt) demoReservedOps), v = none :=
+  c16_state_machine demoReservedOps (demoReserved rt) (by cases rt <;> exact ⟨by decide⟩)
+    (by cases rt <;> exact ⟨⟨by decide, by decide, by decide, by decide⟩, trivial⟩)
 
 /-- a state with one stored device authorization of the confidential client `tv` -/
 def demoDevice : DeviceEntry := { deviceCode := "dc1", userCode := "A-B", state := { ClientID := "tv", Scopes := ["openid"], Expires := 9000 } }
@@ -1223,6 +1361,10 @@ def tag : Out → String
   | .done => "done"
   | .issued i => i.state.Subject
   | .error e => e
+
+/-- ... and that response is a success on both routers -/
+example : ((run (demoReserved .provider) demoReservedOps).2.map tag) = ["authOk"] := by decide
+example : ((run (demoReserved .legacy) demoReservedOps).2.map tag) = ["authOk"] := by decide
 
 def storedOps : List Op :=
   [.poll 2000 (tvReq "dc1") none, .poll 2500 (cliReq "dc1") none, .poll 2600 (tvReq "dc1") (some Const.DeadlineExceeded),
